@@ -1028,6 +1028,18 @@ func (w *W) opMerge() string {
 				}
 			}
 		}
+		// ... and inside the subtree of an every-index entry "*" every index lookup misses, so
+		// whatever follows the "*" in the option's path is lost next to a "**" entry
+		for _, p := range mo.Fields {
+			if p.Wild {
+				continue
+			}
+			for i, x := range p.Path {
+				if x == "*" && i < len(p.Path)-1 {
+					hit = true
+				}
+			}
+		}
 		if wild && hit {
 			if w.R.Avoid["O30"] {
 				return ""
